@@ -134,6 +134,9 @@ func (v *VStruct) getValidFn(validName string) (CommonValidFn, error) {
 // isValidGatherObj 是否验证集合对象, 包含: slice/array/map
 func (v *VStruct) validate(structName string, value reflect.Value, isValidGatherObj ...bool) *VStruct {
 	tv := RemoveValuePtr(value)
+	if !tv.IsValid() || (tv.Kind() == reflect.Ptr && tv.IsNil()) { // nil 没有可验证的内容
+		return v
+	}
 	ty := tv.Type()
 	// fmt.Printf("ty: %v, structName: %q\n", ty, structName)
 	// 如果不是结构体就退出
